@@ -50,6 +50,14 @@ Space
                      C. the caller's array compared before / after the call, then modified and the query repeated;
                      D. copy.copy / copy.deepcopy / dill round trip of each pricer and of the model (new pricer on the copy):
                         same answers bit for bit; deep copies keep their answers when the ORIGINAL model's d is re-assigned.
+                     E. strike vectors in every order: a ladder of 9 strikes (S0 exp(+-0.3 h)) handed to every entry point above
+                        {increasing, decreasing, from the money outwards, a fixed shuffle, with a strike given twice apart and
+                        twice in a row, two decreasing strikes, one element} as a float array, and {decreasing, shuffle, repeated}
+                        also as list and tuple (where the tree accepts them): every entry of the result against the SCALAR call
+                        at the strike given at that position; result of shape (len,); the caller's array unchanged.
+                     In every "model" case, additionally, the 41-point lattice in DECREASING order through COS put / call /
+                     digital / forward / cdf, FFT call and the closed form call / put / digital: equal to the increasing-lattice
+                     answers reversed (1e-12 max(K,S0,F); 1e-12 / 1e-13 for probabilities), shape (41,), array unchanged.
  sub = "pricer-history"  ONE pricer object (COS, FFT, closed form) of BS / HEM / CGMY 0.5 (thorough: + Merton, VG, CGMY 1.2) taken
                      through ordered sequences of steps.  Queries: call / put with vector and scalar strikes at T in {0.5, 1, 2};
                      COS also digital, cdf, density at two point sets of equal length at one maturity, density_log, price(call
@@ -88,6 +96,8 @@ assumptions; it is an evaluated bound, not a proof over the parameter box)
                model.density(T)(s) = density of a default COS pricer (1e-9 relative); COS density asked twice = itself
  route         "reinit" twin: put and digital equal those of the directly constructed model (1e-11 max(K,S0,F) / 1e-11)
  forms         see sub = "forms": 1e-12 max(K,S0) for prices, 1e-12 for probabilities and s * density; copies bit for bit
+ order         result[i] = the scalar call at strikes[i] for every order / container of sub = "forms" E (same tolerances); the
+               decreasing lattice of every "model" case = the increasing one reversed
  history       the last query of every sequence = the answer of a fresh pricer on a fresh model (bit for bit; 1e-12 max(K,S0)
                after set-r / set-d, compared with a fresh model built with the new rates); the second pricer of `other`
                within 1e-7 (COS) / 1e-5 (FFT) of the Black-Scholes closed form (a-priori budgets there: < 1e-8 / 2e-6)
@@ -747,6 +757,32 @@ def _check_model(sh, case):
                 rep.close("scalar", "FFTPricer.call", "scalar-differs-from-vector", _vec(rc, 1), [fcall[i]], [tol], [k])
             if rp is not None:
                 rep.close("scalar", "FFTPricer.put", "scalar-differs-from-vector", _vec(rp, 1), [fput[i]], [tol], [k])
+
+    # ------------------------------------------------------------------ the lattice handed over in DECREASING order
+    # (the full class of orders / containers against scalar calls is in sub = "forms"; here one non-increasing order for every
+    # family, maturity, construction route and set of constants): the i-th value belongs to the i-th strike given
+    Kr = K[::-1].copy()
+    rev = [("COSPricer.put", lambda: cp.put(Kr, T), put, tol_s), ("COSPricer.call", lambda: cp.call(Kr, T), call, tol_s),
+           ("COSPricer.digital", lambda: cp.digital(Kr, T), dig, 1e-12 + 0 * K), ("COSPricer.forward", lambda: cp.forward(Kr, T), fwd, tol_s)]
+    if cdf is not None:
+        rev.append(("COSPricer.cdf", lambda: cp.cdf(T, Kr), cdf, 1e-12 + 0 * K))
+    if fp is not None and fcall is not None:
+        rev.append(("FFTPricer.call", lambda: fp.call(Kr, T), fcall, tol_s + 1e-13 * np.abs(fcall)))
+    if fam == "bs":
+        rev += [("CFBlackScholes.call", lambda: cfp.call(Kr, T), cfv, tol_s), ("CFBlackScholes.put", lambda: cfp.put(Kr, T), cfw, tol_s),
+                ("CFBlackScholes.digital", lambda: cfp.digital(Kr, T), cfd, 1e-13 + 0 * K)]
+    for name, f, incr, tol in rev:
+        got = _call_lib(sh, f"{PID}:call:{name}-decreasing-strikes", icls, f)
+        if got is None:
+            continue
+        got = np.asarray(got, dtype=float)
+        if got.shape != (NSTRIKES,):
+            sh.violation(f"{PID}:order:{name}:result-not-of-the-callers-shape:decreasing:array:{icls}",
+                         f"{name} with {NSTRIKES} decreasing strikes returned an array of shape {got.shape}", ctx)
+            continue
+        rep.close("order", name, "decreasing-lattice-differs-from-increasing-lattice-reversed", got, incr[::-1], np.asarray(tol)[::-1], Kr)
+    if not np.array_equal(Kr, K[::-1]):
+        sh.violation(f"{PID}:order:pricers:modifies-the-callers-array:decreasing:array:{icls}", "a pricer changed the decreasing strike array it was given", ctx)
 
     sh.outcome((icls, round(T, 4), int(np.sum(inb)), int(np.sum(inb_d)), int(np.sum(inb_f))))
     if case.get("spec", {}).get("r") == 0.02 and abs(T - 1.0) < 1e-12 and cos_nl is None and not spec.get("via") and case.get("fft_alpha") is None:
